@@ -2,6 +2,7 @@ CONSTANTS TraceFile = "trace.ndjson"
   R = 2
   N = 2
   Find = FALSE
+  Lock = TRUE
   WithUpdate = TRUE
   Relist = TRUE
   MaxRelist = 3
